@@ -18,20 +18,25 @@ struct Z { mpz_t v; Z() { mpz_init(v); } Z(long x) { mpz_init_set_si(v, x); } ~Z
 static inline long vfh_val(mpz_srcptr a) { return mpz_sgn(a) * (long)mpz_get_ui(a); }
 
 // ---------------------------------------------------------------- binary-token stream operators
-// token = 0x01, sign (0|1), 8 bytes little-endian magnitude; the library writes std::endl after every value and the real
+// token = 0x01, sign (0|1), H_TOKBYTES bytes little-endian magnitude; the library writes std::endl after every value and the real
 // operator>> consumes the rest of the line, so does this one.
+#ifndef H_TOKBYTES
+#define H_TOKBYTES 2          // magnitude bytes per token: values up to 2^16 (larger ones are a model bound)
+#endif
+extern "C" void __vf_model_bound(void);
 std::ostream& vfstub_mpz_out(std::ostream& out, mpz_srcptr v) {
-  char t[10]; unsigned long m = mpz_get_ui(v);
+  char t[2 + H_TOKBYTES]; unsigned long m = mpz_get_ui(v);
+  if (H_TOKBYTES < 8 && (m >> (8 * H_TOKBYTES)) != 0) __vf_model_bound();
   t[0] = 1; t[1] = (char)(mpz_sgn(v) < 0 ? 1 : 0);
-  for (int i = 0; i < 8; ++i) t[2 + i] = (char)((m >> (8 * i)) & 0xFF);
-  out.write(t, 10);
+  for (int i = 0; i < H_TOKBYTES; ++i) t[2 + i] = (char)((m >> (8 * i)) & 0xFF);
+  out.write(t, 2 + H_TOKBYTES);
   return out;
 }
 std::istream& vfstub_mpz_in(std::istream& in, mpz_ptr v) {
-  char t[10]; in.read(t, 10);
+  char t[2 + H_TOKBYTES]; in.read(t, 2 + H_TOKBYTES);
   bool ok = in.good() && t[0] == 1 && (t[1] == 0 || t[1] == 1);
   if (ok) {
-    unsigned long m = 0; for (int i = 0; i < 8; ++i) m |= ((unsigned long)(unsigned char)t[2 + i]) << (8 * i);
+    unsigned long m = 0; for (int i = 0; i < H_TOKBYTES; ++i) m |= ((unsigned long)(unsigned char)t[2 + i]) << (8 * i);
     mpz_set_ui(v, m); if (t[1]) mpz_neg(v, v);
     // rest of the line
     int c = in.get();
@@ -51,25 +56,29 @@ static inline void vfh_put(std::ostream& out, long x) { Z t(x); vfstub_mpz_out(o
 #define H_HMAX 6
 #endif
 #define H_HARGS 20
-struct vfh_hentry { unsigned n; long v[H_HARGS]; unsigned long out; };
-static vfh_hentry vfh_htab[H_HMAX]; static unsigned vfh_hn = 0;
+// flat arrays only (CBMC 6.11 mis-handles a store through &tab[e].v[0] into an array of structs with an inner array when e
+// is not a literal: the stored value reads back as 0 - seen as a spurious counterexample that did not replay natively)
+static unsigned vfh_hcnt[H_HMAX]; static long vfh_hkey[H_HMAX * H_HARGS]; static unsigned long vfh_hout[H_HMAX]; static unsigned vfh_hn = 0;
 static void vfh_digest(mpz_ptr r, unsigned n, const long *vals) {
   vf_assume(n <= H_HARGS);
-  for (unsigned e = 0; e < vfh_hn; ++e) {
-    if (vfh_htab[e].n != n) continue;
+  for (unsigned e = 0; e < H_HMAX; ++e) {       // literal bound: the engine unrolls exactly H_HMAX times
+    if (e >= vfh_hn) break;
+    if (vfh_hcnt[e] != n) continue;
     bool same = true;
-    for (unsigned i = 0; i < n; ++i) if (vfh_htab[e].v[i] != vals[i]) same = false;
-    if (same) { mpz_set_ui(r, vfh_htab[e].out); return; }
+    for (unsigned i = 0; i < n; ++i) if (vfh_hkey[e * H_HARGS + i] != vals[i]) same = false;
+    if (same) { mpz_set_ui(r, vfh_hout[e]); return; }
   }
   vf_assume(vfh_hn < H_HMAX);
   unsigned long o = vf_nondet_below(1UL << H_DBITS);
 #ifdef H_COLLISION_FREE
-  for (unsigned e = 0; e < vfh_hn; ++e) vf_assume(vfh_htab[e].out != o);
+  for (unsigned e = 0; e < H_HMAX; ++e) { if (e >= vfh_hn) break; vf_assume(vfh_hout[e] != o); }
 #endif
-  vfh_htab[vfh_hn].n = n; for (unsigned i = 0; i < n; ++i) vfh_htab[vfh_hn].v[i] = vals[i];
-  vfh_htab[vfh_hn].out = o; ++vfh_hn;
+  unsigned slot = vfh_hn;
+  vfh_hcnt[slot] = n; for (unsigned i = 0; i < n; ++i) vfh_hkey[slot * H_HARGS + i] = vals[i];
+  vfh_hout[slot] = o; vfh_hn = slot + 1;
   mpz_set_ui(r, o);
 }
+size_t vfstub_shash_len() { return (H_DBITS + 7) / 8; }
 // the string/tagged variants get a distinct leading marker value so that different framings never coincide
 void vfstub_shash_va(mpz_ptr r, size_t n, ...) {
   long vals[H_HARGS]; unsigned k = 0; vals[k++] = -1000 - (long)n;
